@@ -66,6 +66,100 @@ def gen_problem(r, max_cells=200, with_zeros=None, nmeas=None):
     return {'dom': dom, 'meas': meas, 'zeros': zeros, 'N': sum(table.values()), 'table': table}
 
 
+def gen_tree_problem(r, kill_value=False):
+    """pairwise identity measurements along a random tree over 4-5 shuffled attributes (the sorted clique order is then usually not a
+    running-intersection order); with kill_value, structural zeros that rule out one value of a separator attribute completely"""
+    k = r.choice([4, 5])
+    names = ['a', 'b', 'c', 'd', 'e'][:k]
+    r.shuffle(names)
+    dom = [[a, r.choice([2, 2, 3])] for a in names]
+    sizes = dict(map(tuple, dom))
+    attrs = [a for a, _ in dom]
+    nodes = attrs[:]
+    r.shuffle(nodes)
+    edges = []
+    for i in range(1, k):
+        j = r.randrange(i) if r.random() < 0.5 else i - 1
+        e = [nodes[j], nodes[i]]
+        if r.random() < 0.5:
+            e.reverse()
+        edges.append(e)
+    r.shuffle(edges)
+    N = r.choice([50, 200])
+    table = {x: 0 for x in itertools.product(*[range(s) for _, s in dom])}
+    cells = list(table)
+    for _ in range(N):
+        table[r.choice(cells[: max(2, len(cells) // 2)])] += 1
+    zeros = {}
+    if kill_value:
+        deg = {a: sum(a in e for e in edges) for a in attrs}
+        seps = [a for a in attrs if deg[a] >= 2]
+        a = r.choice(seps)
+        v = r.randrange(sizes[a])
+        # the same value is ruled out on two cliques around the separator: whichever is the root of the junction tree, the other one
+        # sends a message with a whole -inf slice and receives one back
+        for e in r.sample([e for e in edges if a in e], 2):
+            other = e[0] if e[1] == a else e[1]
+            zc = (a, other) if r.random() < 0.5 else (other, a)
+            zeros[zc] = [((v, w) if zc[0] == a else (w, v)) for w in range(sizes[other])]
+        for x in list(table):
+            if x[attrs.index(a)] == v:
+                table[x] = 0
+        if sum(table.values()) == 0:
+            ok = [x for x in table if x[attrs.index(a)] != v]
+            table[ok[0]] = N
+    meas = []
+    for proj in edges:
+        p = math.prod(sizes[a] for a in proj)
+        pos = [attrs.index(a) for a in proj]
+        acc = {}
+        for x, v in table.items():
+            kx = tuple(x[j] for j in pos)
+            acc[kx] = acc.get(kx, 0) + v
+        xv = np.array([acc.get(c, 0) for c in itertools.product(*[range(sizes[a]) for a in proj])], dtype=float)
+        noise = r.choice([0.5, 1.0, 3.0])
+        y = xv + np.array([r.gauss(0, noise) for _ in range(p)])
+        meas.append({'Q': np.eye(p), 'y': y, 'noise': noise, 'proj': proj})
+    return {'dom': dom, 'meas': meas, 'zeros': zeros, 'N': sum(table.values()), 'table': table}
+
+
+def gen_cycle_problem(r, k=5, noise_choices=(0.5, 1.0, 3.0)):
+    """pairwise measurements around a chordless cycle of k binary/ternary attributes (k >= 5 needs a fill-in edge that itself
+    triggers a further fill-in when the attribute graph is triangulated)"""
+    names = ['a', 'b', 'c', 'd', 'e', 'f', 'g'][:k]
+    r.shuffle(names)
+    dom = [[a, 2] for a in names]
+    if k <= 5:
+        dom[r.randrange(k)][1] = 3
+    sizes = dict(map(tuple, dom))
+    attrs = [a for a, _ in dom]
+    N = r.choice([50, 200])
+    table = {x: 0 for x in itertools.product(*[range(s) for _, s in dom])}
+    cells = list(table)
+    for _ in range(N):
+        table[r.choice(cells[: max(2, len(cells) // 3)])] += 1
+    order = attrs[:]
+    r.shuffle(order)
+    meas = []
+    for i in range(k):
+        proj = [order[i], order[(i + 1) % k]]
+        if r.random() < 0.5:
+            proj.reverse()
+        p = math.prod(sizes[a] for a in proj)
+        Q = np.eye(p)
+        pos = [attrs.index(a) for a in proj]
+        acc = {}
+        for x, v in table.items():
+            kx = tuple(x[j] for j in pos)
+            acc[kx] = acc.get(kx, 0) + v
+        xv = np.array([acc.get(c, 0) for c in itertools.product(*[range(sizes[a]) for a in proj])], dtype=float)
+        noise = r.choice(list(noise_choices))
+        # large, cyclically inconsistent perturbations: a locally consistent but globally unrealisable fit would score better than any table
+        y = Q @ xv + np.array([r.gauss(0, 0.15 * N) for _ in range(Q.shape[0])])
+        meas.append({'Q': Q, 'y': y, 'noise': noise, 'proj': proj})
+    return {'dom': dom, 'meas': meas, 'zeros': {}, 'N': N, 'table': table}
+
+
 def to_measurements(meas):
     return [(m['Q'], m['y'], m['noise'], tuple(m['proj'])) for m in meas]
 
